@@ -103,16 +103,25 @@ pub fn ext(ctx: &Ctx) {
     let n = ctx.pick("registrations", 4);
     let mut ops = Vec::new();
     for _ in 0..n {
-        let k = ctx.pick("registration", 4);
-        let (pf, url) = [("ext", "http://example.com/a"), ("ext", "http://example.com/b"), ("e2", "http://example.com/a"), ("e2", "urn:x:y")][k];
+        let k = ctx.pick("registration", 6);
+        let (pf, url) = [("ext", "http://example.com/a"), ("ext", "http://example.com/b"), ("e2", "http://example.com/a"), ("e2", "urn:x:y"), ("e2", ""), ("ext", "")][k];
         ops.push(Op::ExtTry(pf.into(), url.into()));
     }
-    let has_ext = ops.iter().any(|o| matches!(o, Op::ExtTry(p, _) if p == "ext"));
+    let has_ext = ops.iter().any(|o| matches!(o, Op::ExtTry(p, u) if p == "ext" && !u.is_empty()));
     let mut proto = crate::cat::xyz(crate::cat::F32);
     if has_ext {
         proto.push(crate::cat::ext_rec("ext", "attr", e57spec::model::Ty::Int { min: 0, max: 9 }));
     }
     ops.push(Op::Cloud(cloud(proto, 2, 3)));
     let p = Program { guid: "g".into(), ops, ..Default::default() };
+    run(ctx, &p);
+}
+
+/// metadata-rich files: every catalogue string (non-ASCII, astral, markup characters) in every
+/// string field (rotated), 5 image kinds rotating along, judged by the independent validator
+pub fn meta(ctx: &Ctx) {
+    let strings = crate::cat::strings();
+    let s0 = ctx.pick("string", strings.len());
+    let p = crate::c04::build_with(&strings, s0, s0 % 5);
     run(ctx, &p);
 }
